@@ -4,8 +4,8 @@
    The theorems are stated so that they hold for whatever the tables say: which rows satisfy the
    guards ([size_safe], [dl_safe], [gen_extract_guard]) is computed by the check on every run, and every
    row that does not is reported with a concrete crashing file.  Every proof is [exact lemma]. *)
-From TV Require Import Base.I32 Model.BinScript Model.Labels Model.Texture Gen.InstrFmt Gen.TexFmt
-  Proofs.ReadTotal Proofs.LabelsDefined Proofs.ExtractTotal.
+From TV Require Import Base.I32 Model.BinScript Model.Labels Model.Texture Model.DecodeArgs Gen.InstrFmt Gen.TexFmt Gen.AbiLetters
+  Proofs.ReadTotal Proofs.LabelsDefined Proofs.ExtractTotal Proofs.DecodeTotal.
 Open Scope Z_scope.
 
 (* (0) the generated tables are well formed: every format reads at least one header field *)
@@ -92,6 +92,24 @@ Theorem C16_extract_total_refuted :
   (produce_image tbl0 true (mkTex 1 4 2 16 0 0) = Err E_TEXSIZE) /\
   (produce_image tbl0 true (mkTex 3 2 2 7 0 0) = Err E_TEXSIZE).
 Proof. exact extract_total_refuted. Qed.
+
+(* (6) decode_total: the blob decoder (decode_args_with_abi) is Ok or Err for every blob and every signature
+       whose integer/padding sizes have a decoder arm and whose arg0 argument (if any) comes first and has
+       its extra argument; every letter of the signature parser produces such a size *)
+Theorem C16_letters_have_decoder_arms :
+  letters_ok gen_decode_int_sizes gen_decode_pad_sizes gen_int_letters gen_pad_letters = true.
+Proof. vm_compute. reflexivity. Qed.
+
+Theorem C16_decode_total : forall str_ok blob es has_extra,
+  encs_valid gen_decode_int_sizes gen_decode_pad_sizes es has_extra = true ->
+  ok_or_err (decode_args str_ok gen_decode_int_sizes gen_decode_pad_sizes blob es has_extra).
+Proof. intros. now apply decode_total. Qed.
+
+Theorem C16_decode_unvalidated_refuted :
+  decode_args (fun _ => true) [1; 2; 4] [1; 4] [0; 0; 0] [EncInt 3 false] false = Panic P_UNREACH /\
+  decode_args (fun _ => true) [1; 2; 4] [1; 4] [0; 0] [EncInt 2 true] false = Panic P_EXPECT /\
+  decode_args (fun _ => true) [1; 2; 4] [1; 4] [0; 0] [EncInt 2 true; EncInt 2 true] true = Panic P_EXPECT.
+Proof. exact decode_unvalidated_refuted. Qed.
 
 (* non-vacuity: a format that satisfies the guard of (2) exists in the generated table, and reads a script *)
 Example C16_read_nonvacuous :
